@@ -24,12 +24,17 @@ def emit(rec: dict):
 
 
 def mid_of(es) -> int:
-    """manager id, keyed by the identity of its epistemic_state dict (shared with the per-call operator instances)."""
-    k = id(es)
-    if k not in _state["mids"]:
+    """manager id: a marker stored in the epistemic_state dict itself (the dict is shared with the per-call operator
+    instances and inherited by forked workers; id() values may be reused after garbage collection)."""
+    m = es.get("_verif_mid")
+    if m is None:
         _state["next_mid"] += 1
-        _state["mids"][k] = _state["next_mid"]
-    return _state["mids"][k]
+        m = _state["next_mid"]
+        try:
+            es["_verif_mid"] = m
+        except Exception:
+            pass
+    return m
 
 
 def qid_of(cond):
